@@ -78,6 +78,15 @@ def cases(tier):
         text = f'10 PRINT "A{ch}B"\n20 REM X{ch}Y\n30 DATA P{ch}Q,2\n40 A$="{ch}"\n'
         out.append({"fmt": "cli", "kind": "cli-control-char", "name": "prog.bas", "data": text.encode(), "flags": "0000",
                     "storage": 32, "sizes": []})
+    # file contents at the edge: nothing at all, only line ends / blanks / NUL / ^Z padding, a program followed or
+    # preceded by such padding, a lone line number - under several flag sets (C15: converted or refused, never a crash)
+    small = "10 PRINT \"HI\"\n20 A=1\n"
+    for k, data in enumerate([b"", b"\n", b"\r", b"\r\n", b"\n\n\n", b" ", b"\x00", b"\x1a", b"\x00\x00\x00", b"\x1a\x1a", b"\x00\x1a",
+                              b"10", b"10 ", b"0", small.encode() + b"\x00", small.encode() + b"\x1a", small.encode() + b"\x00\x00\x00",
+                              small.encode() + b"\x1a\x00", b"\x00" + small.encode(), small.encode()[:-1], b"\xff\xfe", b"\xe9"]):
+        for flags in (["0000", "1111", "0010"] if len(data) < 4 else ["0000"]):
+            out.append({"fmt": "cli", "kind": "cli-content", "name": ["prog.bas", "x.bas", "a_1.bas"][k % 3], "data": data, "flags": flags,
+                        "storage": [32, 80][k % 2], "sizes": []})
     # the configuration file: entries at the edge of what the validator documents, and entries beyond it
     prog = '10 DIM A$, AB$(3), A1$, ZZ$\n20 A$="X":AB$(1)=A$:A1$="Y":ZZ$="Z":B$="W"\n'
     for sizes, valid in CONFIG_PROBES:
@@ -118,6 +127,25 @@ def config_oracle(case, impl):
             if dims and size != 32 and not any(f"STRING[{size}]" in l for l in dims):
                 return f"{key} is configured with {size} bytes but is declared as {dims[0].strip()[:60]!r}"
     return None
+
+
+def crash_oracle(case, impl):
+    """C15 through the command line: start(argv) on any input file returns, or raises one of the documented refusals
+    (a file that is not text in the locale's encoding is outside the property: UnicodeDecodeError is Python's answer)"""
+    if impl.startswith("internal ") and impl != "internal UnicodeDecodeError":
+        return f"start(argv) on a file holding {case['data'][:40]!r} failed with an internal exception: {impl[9:]}"
+    return None
+
+
+def crash_classify(case, impl, why):
+    import oracles_b09 as OB
+    try:
+        text = io.TextIOWrapper(io.BytesIO(case["data"]), encoding=None).read()
+    except UnicodeDecodeError:
+        return None
+    o = {"flags": "1" + "1" + ("0" if case["flags"][3] == "1" else "1") + case["flags"][0] + ("0" if case["flags"][1] == "1" else "1")
+                  + ("0" if case["flags"][2] == "1" else "1") + "0", "storage": case["storage"], "procname": "prog", "sizes": []}
+    return OB.c15_classify({"text": text, "opts": o}, impl, why)
 
 
 def _fresh(job):
